@@ -88,6 +88,8 @@ def compare_tree(spec_tree, real_tree, cols, keymap, what):
     if k[0] == 'st':
       if name != 'count' or int(np.asarray(r)) != v['n']:
         out.append(('C05', f'{what}: {k} = {int(np.asarray(r))}, specification {v["n"]}'))
+        if what.startswith('init'):      # what init returns is not what the program left / what apply would consume
+          out.append(('C02', f'{what}: {k} = {int(np.asarray(r))}, specification {v["n"]}'))
     else:
       msg = keymap.check(v['key'], _bytes(np.asarray(r))) if keymap else None
       if msg:
@@ -180,6 +182,51 @@ def replay(beh, idx, full=True, repeat=True):
   return viol
 
 
+def unbind_checks(chk):
+  """C02: a bound submodule, unbound, applied on its own subtree computes what it computes inside its parent and needs no further
+  initialisation - for setup-declared children and for attribute trees in which one instance is shared (at one or two depths)."""
+  import flax.linen as nn
+  rngs = lc.rngs_for(['params'])
+  for pattern in ('two-depths', 'same-depth', 'reversed', 'unshared'):
+    key = f'C02:unbind:{pattern}'
+    top = ds.PairTop(pattern=pattern)
+    try:
+      variables = top.init(rngs)
+      inside = np.asarray(top.apply(variables, mutable=['st'])[0])
+      sub, sub_vars = top.bind(variables).mid.unbind()
+      alone = np.asarray(sub.apply(sub_vars, mutable=['st'])[0])
+      fresh = sub.init(rngs)
+    except Exception as e:
+      chk.count(key)
+      chk.violation(key, f'raised {type(e).__name__}: {str(e)[:200]}', {'pattern': pattern})
+      continue
+    chk.count(key)
+    if not np.array_equal(alone, inside):
+      chk.violation(key, f'the unbound submodule applied on its own subtree returns {alone.tolist()}, inside its parent {inside.tolist()}', {'pattern': pattern})
+    if set(ds.flatten(fresh)) != set(ds.flatten(sub_vars)):
+      chk.violation(key, f'initialising the unbound submodule gives variables {sorted(ds.flatten(fresh))}, its subtree in the parent has '
+                         f'{sorted(ds.flatten(sub_vars))}', {'pattern': pattern})
+  # setup-declared children of the Top family
+  for decl in (('Leaf', 'Mid', 'none', False, 'setup'), ('Mid', 'Leaf', 'none', False, 'setup'), ('Mid', 'alias', 'none', False, 'setup')):
+    uses = (('a', 'plain'), ('b', 'plain'))
+    top = ds.instance(decl, uses, True)
+    variables = top.init(rngs)
+    inside = np.asarray(ds.instance(decl, uses, False).apply(variables, mutable=['st'])[0])
+    for i, attr in enumerate(('a', 'b')):
+      key = f'C02:unbind:{"/".join(map(str, decl))}:{attr}'
+      chk.count(key)
+      if decl[1] == 'alias' and attr == 'b':
+        continue
+      try:
+        sub, sub_vars = getattr(ds.instance(decl, uses, False).bind(variables), attr).unbind()
+        alone = np.asarray(sub.apply(sub_vars, mutable=['st'])[0])
+      except Exception as e:
+        chk.violation(key, f'raised {type(e).__name__}: {str(e)[:200]}', {'decl': decl})
+        continue
+      if not np.array_equal(alone, inside[i]):
+        chk.violation(key, f'unbound {attr} on its own subtree returns {alone.tolist()}, inside its parent {inside[i].tolist()}', {'decl': decl})
+
+
 def run(chk, prop):
   thorough = chk.thorough
   mc = tlc.require_ok(tlc.run('LinenSetup', 'LinenSetup_mc.cfg' if thorough else 'LinenSetup_mc2.cfg', workers=16, timeout=3000), 'LinenSetup MC')
@@ -214,6 +261,8 @@ def run(chk, prop):
     for p, key, what in viol:
       if p == prop:
         chk.violation(f'{prop}:{key}', what, beh)
+  if prop == 'C02':
+    unbind_checks(chk)
   chk.cov['setup_behaviours_replayed'] = len(seen)
   if sim['exports']:
     b = sim['exports'][len(sim['exports']) // 2]
